@@ -1,9 +1,11 @@
 #!/bin/bash
-# usage: tools/try_mutant.sh <patch.diff> <prop> [<prop>...]   — applies the patch to /repo, runs the checks, reverts
-# (evidence files and the generated Lean tables are restored afterwards: what is committed must come from the clean tree)
+# usage: tools/try_mutant.sh <patch.diff> <prop> [<prop>...]   — applies the patch to the repository (KODA_REPO, default
+# /repo), runs the checks, reverts (evidence files and the generated Lean tables are restored afterwards: what is
+# committed must come from the clean tree)
 patch="$1"; shift
+R="${KODA_REPO:-/repo}"
 cd "$(dirname "$0")/.."
-git -C /repo apply "$patch" || { echo "patch does not apply"; exit 3; }
+git -C "$R" apply "$patch" || { echo "patch does not apply"; exit 3; }
 tmp=$(mktemp -d)
 cp lean/KodaModel/Generated/*.lean "$tmp"/
 for p in "$@"; do
@@ -12,7 +14,7 @@ for p in "$@"; do
   echo "$p rc=$rc $(echo "$out" | grep -v KNOWN | head -2 | tr '\n' ' ')"
   cp "$tmp"/$p.json evidence/ 2>/dev/null
 done
-git -C /repo checkout -- .
+git -C "$R" checkout -- .
 cp "$tmp"/*.lean lean/KodaModel/Generated/
 rm -rf "$tmp"
-git -C /repo status --short | head -3
+git -C "$R" status --short | head -3
